@@ -105,9 +105,23 @@ class Bounded:
         ps = [ctx.Process(target=child, args=(c, q)) for c in chunks]
         for p_ in ps:
             p_.start()
-        for _ in ps:
-            e, r, ks, fs, err = q.get()
+        import queue as _queue
+        got = 0
+        while got < len(ps):
+            try:
+                e, r, ks, fs, err = q.get(timeout=10)
+            except _queue.Empty:
+                # a worker that died without reporting (killed, out of memory) must not look like "no failures"
+                if sum(1 for p_ in ps if p_.exitcode is not None) > got and q.empty():
+                    for p_ in ps:
+                        p_.terminate()
+                    raise RuntimeError("a bounded worker process ended without reporting its results")
+                continue
+            got += 1
             if err:
+                # stop the other workers first: the interpreter joins live children at exit and they would block on the unread queue
+                for p_ in ps:
+                    p_.terminate()
                 raise RuntimeError("bounded worker failed: " + err)
             self.enumerated += e
             self.random += r
